@@ -21,7 +21,7 @@ func init() {
 		Assumptions: []string{"the reference Sig_structure builder reads RFC 9052 section 4.4 correctly (self-tested on the repository's vectors)", "input model of DESIGN 2.2"},
 		Real:        []string{"github.com/veraison/go-cose", "github.com/fxamacker/cbor/v2"},
 		Stubs:       []string{"cose.Signer / cose.Verifier (recording wrappers around the built-in ones)", "foreign peer (reference model)", "wire with fault injection", "entropy source"},
-		QuickRuns:   8000, ThoroughRuns: 200000,
+		QuickRuns:   200000, ThoroughRuns: 3000000,
 	}
 }
 
